@@ -7,6 +7,7 @@ import JunoModel.C01.ProofsLegacy
 import JunoModel.C01.ProofsLegacyDel
 import JunoModel.C01.ProofsAbs
 import JunoModel.C01.ProofsMisc
+import JunoModel.C01.ProofsAgree
 /-!
 C01 — property theorems (statements only; helper lemmas are in `Proofs*.lean`).
 Every theorem in this module is an obligation listed in evidence/C01.json with its axioms.
@@ -205,6 +206,31 @@ theorem legacy_state_commitment_spec_partial (pre014 : Bool) (ds : List State.Di
     ⟨Or.inl rfl, by simp [State.St.empty, CacheOK], by intro k _; simp [State.St.empty, Trie2.get]⟩
   obtain ⟨w, i⟩ := State.run_swf ds hd _ _ _ State.swf_empty hc h
   exact State.commitment_of_swf w _ i pre014
+
+/-- **Which of the two state implementations is selected does not matter — unless a system contract is
+emptied.** `State.NoSystemContractEmptied a ds` is a condition on the ABSTRACT states only: after every diff,
+every system contract whose storage that diff writes has a non-empty storage. Then the model of
+core/deprecatedstate (no purge) and the model of core/state go through the same states, so the legacy root is
+the protocol commitment of the abstract state as well. -/
+theorem state_backends_agree_unless_system_contract_emptied (pre014 : Bool) (ds : List State.Diff)
+    (hd : ∀ d ∈ ds, State.ValidDiff d)
+    (hk : State.NoSystemContractEmptied State.AbsSt.empty ds) (s : State.St)
+    (h : State.run false ds State.St.empty = some s) :
+    State.run true ds State.St.empty = some s ∧
+    State.commitment pre014 s = State.absCommitment pre014 (State.absState ds) := by
+  have hc : Inv .poseidon 251 State.St.empty.cltrie State.AbsSt.empty.classes :=
+    ⟨Or.inl rfl, by simp [State.St.empty, CacheOK], by intro k _; simp [State.St.empty, State.AbsSt.empty, Trie2.get]⟩
+  have e := State.run_backends_agree ds hd _ _ State.swf_empty State.rel_empty hc hk
+  rw [e] at h
+  exact ⟨h, state_commitment_spec pre014 ds hd s h⟩
+
+/-- non-vacuity of the condition: a block that writes 5 to slot 7 of system contract 0x1 -/
+example : State.NoSystemContractEmptied State.AbsSt.empty
+    [⟨[], [], [], [], [], [(State.addr1, [(State.slot7, .felt 5)])]⟩] := by
+  refine ⟨?_, trivial⟩
+  intro e he _
+  simp at he; subst he
+  exact ⟨State.slot7, State.slot7_length, by simp [State.absApply, State.setAt]⟩
 
 set_option maxRecDepth 8000 in
 theorem legacy_state_commitment_not_protocol :
